@@ -37,7 +37,7 @@ func (e *Enc) loopHeader(b *ssa.BasicBlock, li *loopInfo, st *State) {
 			continue
 		}
 		f := e.evalInv(inv, ctx)
-		e.obligeAt(e.pc[b], "loop", fmt.Sprintf("loop%d.%s%d.init", li.Ord, inv.Kind, k+1), f, b.Instrs[0].Pos(), "invariant holds on loop entry: "+inv.C.Src)
+		e.obligeSplit(e.pc[b], "loop", fmt.Sprintf("loop%d.%s%d.init", li.Ord, inv.Kind, k+1), f, b.Instrs[0].Pos(), "invariant holds on loop entry: "+inv.C.Src, b)
 	}
 	li.preState = st.clone()
 	// 3. havoc
@@ -46,6 +46,7 @@ func (e *Enc) loopHeader(b *ssa.BasicBlock, li *loopInfo, st *State) {
 		e.havocAll(st, "loop body")
 	} else {
 		e.havocRoots(st, ws, false)
+		e.havocKeys(st, ws, li)
 	}
 	na := e.declare(e.freshName("al_loop"), "Int")
 	e.assume("(>= " + na + " " + st.alloc + ")")
@@ -125,6 +126,40 @@ func (e *Enc) loopInvariants(li *loopInfo, phis []*ssa.Phi) []loopInv {
 	// automatic: counters that start at a constant and only step upward
 	if e.ctr != nil && e.ctr.Opts["auto-inv"] == "off" {
 		return out
+	}
+	// slices carried around a loop usually keep their window offset (append, reslicing
+	// from the front excepted): guess it, Houdini drops the guess if it does not hold
+	for _, phi := range phis {
+		if _, ok := phi.Type().Underlying().(*types.Slice); !ok {
+			continue
+		}
+		var entryOff string
+		same := true
+		for i, ed := range phi.Edges {
+			if phi.Block().Dominates(phi.Block().Preds[i]) {
+				continue
+			}
+			v, ok := e.vals[ed]
+			if !ok {
+				if _, isConst := ed.(*ssa.Const); isConst {
+					v = e.val(ed)
+				} else {
+					same = false
+					break
+				}
+			}
+			if entryOff == "" {
+				entryOff = v.L[slOff]
+			} else if entryOff != v.L[slOff] {
+				same = false
+			}
+		}
+		if same && entryOff != "" {
+			ph, eo := phi, entryOff
+			out = append(out, loopInv{Kind: "auto", C: Clause{Src: "offset(" + phi.Comment + ") unchanged"}, Raw: func() string {
+				return "(= " + e.vals[ph].L[slOff] + " " + eo + ")"
+			}})
+		}
 	}
 	for _, phi := range phis {
 		if !isInteger(phi.Type()) || phi.Comment == "" {
@@ -274,7 +309,23 @@ func (e *Enc) checkBackEdges(b *ssa.BasicBlock, st *State) {
 				continue
 			}
 			f := e.evalInv(inv, ctx)
-			e.obligeAt(cond, "loop", fmt.Sprintf("loop%d.%s%d.keep@b%d", li.Ord, inv.Kind, k+1, b.Index), f, b.Instrs[len(b.Instrs)-1].Pos(), "invariant preserved by loop body: "+inv.C.Src)
+			e.obligeSplit(cond, "loop", fmt.Sprintf("loop%d.%s%d.keep@b%d", li.Ord, inv.Kind, k+1, b.Index), f, b.Instrs[len(b.Instrs)-1].Pos(), "invariant preserved by loop body: "+inv.C.Src, b)
+		}
+		// rotated loops leave from the latch: establish the (declared) invariants on
+		// the exit edges too, and keep them as facts for the code after the loop
+		for slot2, s2 := range b.Succs {
+			if s2 == s || li.Body[s2] || len(b.Succs) < 2 || b.Comment != "rangeint.loop" {
+				continue
+			}
+			exitCond := e.edge(b, slot2)
+			for k, inv := range invs {
+				if inv.Kind != "inv" {
+					continue
+				}
+				f := e.evalInv(inv, ctx)
+				e.obligeSplit(exitCond, "loop", fmt.Sprintf("loop%d.%s%d.exit@b%d", li.Ord, inv.Kind, k+1, b.Index), f, b.Instrs[len(b.Instrs)-1].Pos(), "invariant holds when the loop is left from its latch: "+inv.C.Src, b)
+				e.assume(sImp(exitCond, f))
+			}
 		}
 		if dc, ok := e.loopDecreases(li); ok {
 			v := e.evalSpec(dc.E, ctx)
@@ -291,13 +342,31 @@ type writeSet struct {
 	all   bool
 	roots map[string]bool // heap roots (typeKey) possibly written
 	ghost map[string]bool
+	keys  map[string]*keyWrite // individual heap arrays written by stores with a known base
 }
 
-func newWriteSet() *writeSet { return &writeSet{roots: map[string]bool{}, ghost: map[string]bool{}} }
+type keyWrite struct {
+	hk    *heapKey
+	whole bool
+	bases []ssa.Value
+}
+
+func newWriteSet() *writeSet {
+	return &writeSet{roots: map[string]bool{}, ghost: map[string]bool{}, keys: map[string]*keyWrite{}}
+}
 
 func (w *writeSet) add(o *writeSet) {
 	if o.all {
 		w.all = true
+	}
+	for k, kw := range o.keys {
+		cur := w.keys[k]
+		if cur == nil {
+			cur = &keyWrite{hk: kw.hk}
+			w.keys[k] = cur
+		}
+		cur.whole = cur.whole || kw.whole
+		cur.bases = append(cur.bases, kw.bases...)
 	}
 	for k := range o.roots {
 		w.roots[k] = true
@@ -335,6 +404,60 @@ func staticRoot(addr ssa.Value) types.Type {
 	}
 }
 
+// staticStoreKeys determines which heap arrays a store writes and from which base
+// value (slice or pointer) the written object is reached. Returns false when the
+// address chain cannot be resolved statically.
+func (e *Enc) staticStoreKeys(addr ssa.Value, T types.Type, ws *writeSet) bool {
+	var path []Step
+	cur := addr
+	var base ssa.Value
+	var root types.Type
+	for base == nil {
+		switch a := cur.(type) {
+		case *ssa.FieldAddr:
+			path = append([]Step{{Field: a.Field}}, path...)
+			cur = a.X
+		case *ssa.IndexAddr:
+			switch u := a.X.Type().Underlying().(type) {
+			case *types.Slice:
+				base, root = a.X, u.Elem()
+			case *types.Pointer:
+				arr := u.Elem().Underlying().(*types.Array)
+				if _, embedded := a.X.(*ssa.FieldAddr); embedded {
+					return false
+				}
+				base, root = a.X, arr.Elem()
+			default:
+				return false
+			}
+		default:
+			pt, ok := cur.Type().Underlying().(*types.Pointer)
+			if !ok {
+				return false
+			}
+			if _, isArr := pt.Elem().Underlying().(*types.Array); isArr {
+				return false
+			}
+			base, root = cur, ptrRoot(pt.Elem())
+		}
+	}
+	fake := &Val{T: types.NewPointer(T), L: []string{"?r", "?i"}, Root: root, Path: path}
+	for _, lf := range typeLeaves(T) {
+		if lf.Dims > 0 {
+			return false
+		}
+	}
+	for _, a := range e.accesses(fake, T) {
+		kw := ws.keys[a.HK.Key]
+		if kw == nil {
+			kw = &keyWrite{hk: a.HK}
+			ws.keys[a.HK.Key] = kw
+		}
+		kw.bases = append(kw.bases, base)
+	}
+	return true
+}
+
 func (e *Enc) loopWrites(li *loopInfo) *writeSet {
 	ws := newWriteSet()
 	for b := range li.Body {
@@ -349,19 +472,17 @@ func (e *Enc) instrWrites(ins ssa.Instruction) *writeSet {
 	ws := newWriteSet()
 	switch ins := ins.(type) {
 	case *ssa.Store:
-		if r := staticRoot(ins.Addr); r != nil {
-			ws.roots[typeKey(r)] = true
-		} else {
-			ws.all = true
+		if !e.staticStoreKeys(ins.Addr, ins.Val.Type(), ws) {
+			if r := staticRoot(ins.Addr); r != nil {
+				ws.roots[typeKey(r)] = true
+			} else {
+				ws.all = true
+			}
 		}
 	case *ssa.MapUpdate:
 		ws.roots[typeKey(ins.Map.Type().Underlying())] = true
-	case *ssa.Alloc:
-		ws.roots[typeKey(ptrRoot(ins.Type().(*types.Pointer).Elem()))] = true
-	case *ssa.MakeSlice:
-		ws.roots[typeKey(ins.Type().Underlying().(*types.Slice).Elem())] = true
-	case *ssa.MakeMap:
-		ws.roots[typeKey(ins.Type().Underlying())] = true
+	case *ssa.Alloc, *ssa.MakeSlice, *ssa.MakeMap:
+		// objects created in the loop are fresh: no pre-existing cell changes
 	case *ssa.Convert:
 		if sl, ok := ins.Type().Underlying().(*types.Slice); ok {
 			ws.roots[typeKey(sl.Elem())] = true
@@ -786,6 +907,66 @@ func (e *Enc) havocRoots(st *State, ws *writeSet, preserve bool) {
 	}
 	if preserve {
 		e.preserveLocals(old, st, ws.roots)
+	}
+}
+
+// havocKeys forgets, at a loop head, the rows of the objects the loop body stores to.
+func (e *Enc) havocKeys(st *State, ws *writeSet, li *loopInfo) {
+	ks := make([]string, 0, len(ws.keys))
+	for k := range ws.keys {
+		ks = append(ks, k)
+	}
+	sort.Strings(ks)
+	for _, k := range ks {
+		kw := ws.keys[k]
+		if ws.roots[kw.hk.Root] {
+			continue // whole root already forgotten
+		}
+		whole := kw.whole
+		var refs []string
+		for _, b := range kw.bases {
+			inLoop := false
+			if ins, ok := b.(ssa.Instruction); ok && li.Body[ins.Block()] {
+				inLoop = true
+			}
+			if inLoop {
+				switch b.(type) {
+				case *ssa.Alloc, *ssa.MakeSlice:
+					continue // created by the loop: fresh, cannot be a pre-existing row
+				}
+				whole = true
+				break
+			}
+			v, ok := e.vals[b]
+			if !ok {
+				switch b.(type) {
+				case *ssa.Global, *ssa.Const:
+					v = e.val(b)
+				default:
+					whole = true
+				}
+			}
+			if v != nil {
+				refs = append(refs, v.L[0])
+			}
+		}
+		if whole {
+			delete(st.heap, k)
+			st.rootEpoch[kw.hk.Root+"#"+k] = 0
+			name := e.declare(e.freshName("hk"), kw.hk.Sort)
+			st.heap[k] = name
+			e.bumpVer(st, kw.hk.Root)
+			continue
+		}
+		seen := map[string]bool{}
+		for _, r := range refs {
+			if seen[r] {
+				continue
+			}
+			seen[r] = true
+			row := e.declare(e.freshName("hrow"), arraySort(kw.hk.Leaf.Sort, 1))
+			e.heapSet(st, kw.hk, "(store "+e.heapGet(st, kw.hk)+" "+r+" "+row+")")
+		}
 	}
 }
 
